@@ -3,10 +3,14 @@
 import json, os, re, glob
 V = os.path.dirname(os.path.dirname(os.path.abspath(__file__)))
 rows = []
+harmless = []
 for d in sorted(glob.glob(os.path.join(V, 'seeded', '*'))):
     try:
         m = json.load(open(os.path.join(d, 'meta.json')))
     except OSError:
+        continue
+    if m['id'].startswith('harmless'):
+        harmless.append(m)
         continue
     conf = m.get('confirmed', {})
     ok = all(conf.get(k) for k in ('demo_passes_without_change', 'demo_fails_with_change', 'existing_suite_passes_with_change'))
@@ -35,6 +39,10 @@ for name, rs in (('round 1 (plausible maintainer mistakes)', r1), ('round 2 (del
         out.append('%s: %d confirmed changes; %d reported as VIOLATION at first evaluation (%d of them with a failing input); %d reported now (%d with a failing input).' % (
             name, len(rs), sum('VIOLATION' in r[3] for r in rs), sum('VIOLATION' in r[3] and 'no-failing' not in r[3] for r in rs),
             sum('VIOLATION' in r[4] for r in rs), sum('VIOLATION' in r[4] and 'no-failing' not in r[4] for r in rs)))
+if harmless:
+    out.append('')
+    out.append('Negative controls – behaviour-preserving refactorings written by an independent sub-agent (rewritten option-parsing loop, option-header helper, `to_be_bytes`-based uint encoder, registry loops, shared scanner for both link parsers, guarded-write helpers, restructured Block1 handling, mask-constant header setters / reordered match arms): ' +
+               '; '.join('%s: %s' % (h['id'], ', '.join('%s %s' % kv for kv in sorted(h['check_results'].items()))) for h in harmless) + '. No check raised an alarm.')
 p = os.path.join(V, 'DESIGN.md')
 s = open(p).read()
 s = re.sub(r'<!-- SEEDED-TABLE-BEGIN -->.*<!-- SEEDED-TABLE-END -->', '<!-- SEEDED-TABLE-BEGIN -->\n' + '\n'.join(out) + '\n<!-- SEEDED-TABLE-END -->', s, flags=re.S)
